@@ -341,12 +341,14 @@ class Ctx:
                 return f
         return None
 
-    def violation(self, component, kind, detail, replay, found_input=True, what=None):
+    def violation(self, component, kind, detail, replay, found_input=True, what=None, tags=()):
         """A property violation (found_input=True: concrete failing input on the
         implementation) or an unexplained broken proof / correspondence."""
         kf = self._match_known(component, kind) if found_input else None
         if kf is not None and kf.get("detail_contains") and kf["detail_contains"] not in str(detail):
             kf = None
+        if kf is not None and kf.get("requires_tags") and not set(kf["requires_tags"]) <= set(tags):
+            kf = None       # same component/kind but outside the recorded triggering condition
         if kf is not None:
             self.known_hits[kf["id"]] += 1
             return
